@@ -5,6 +5,7 @@ use std::collections::{BTreeMap, HashSet};
 pub mod c01;
 pub mod c02;
 pub mod c04;
+pub mod c06;
 pub mod c07;
 pub mod c09;
 pub mod c10;
@@ -93,6 +94,7 @@ pub fn generate(prop: &str, tier: &str, g: &mut Gen) {
         "C10" => c10::generate(g, thorough),
         "C01" => c01::generate(g, thorough),
         "C14" => c14::generate(g, thorough),
+        "C06" => c06::generate(g, thorough),
         "C11" => c11::generate(g, thorough),
         _ => {}
     }
